@@ -334,7 +334,18 @@ def observe(case: dict) -> dict:
                 b.net.step(init_conditions={el_: {k_: v_.copy() for k_, v_ in dd.items()} for el_, dd in pristine.items()},
                            engine=np_engine(), **okw, **kw)
                 y3, _ = b.read_next()
-                o["pure"] = {"has": True, "changed": sorted(set(ch1 + ch2)), "y2": y2, "y3": y3}
+                # the caller reuses its buffers: same array objects, new contents
+                for el_, dd in ic.items():
+                    for k_, v_ in dd.items():
+                        v_[...] = pristine[el_][k_] * 0.875 + 0.5
+                moved = {el_: {k_: v_.copy() for k_, v_ in dd.items()} for el_, dd in ic.items()}
+                b.net.step(init_conditions=ic, engine=np_engine(), **okw, **kw)
+                y4, _ = b.read_next()
+                bf = Built(case)
+                fresh = {bf.links.get(b.idof[el_]) or bf.origins.get(b.idof[el_]) or bf.dests.get(b.idof[el_]): dd for el_, dd in moved.items()}
+                bf.net.step(init_conditions=fresh, engine=np_engine(), **okw, **kw)
+                y5, _ = bf.read_next()
+                o["pure"] = {"has": True, "changed": sorted(set(ch1 + ch2)), "y2": y2, "y3": y3, "y4": y4, "y5": y5}
         except BaseException as e:  # noqa: BLE001
             o["err"] = errstr(e)
             o["ok"] = False
@@ -394,10 +405,21 @@ def observe(case: dict) -> dict:
     return obs
 
 
-def make_syms(eng, params):
+def pname(p, first_bare):
+    """label of a declared parameter; labels are the caller's business: with `first_bare` the first element's symbol
+    of a per-element kind is labelled by the bare kind (e.g. 'rho_crit' for L1, 'rho_crit_L2' for L2)"""
+    if p["el"] == "*" or (first_bare and p.get("first")):
+        return p["kind"]
+    return f"{p['kind']}_{p['el']}"
+
+
+def make_syms(eng, params, first_bare=False):
     syms, decl = {}, []
+    seen = set()
     for p in params:
-        name = p["kind"] if p["el"] == "*" else f"{p['kind']}_{p['el']}"
+        p["first"] = p["kind"] not in seen and p["el"] != "*"
+        seen.add(p["kind"])
+        name = pname(p, first_bare)
         s = eng.sym_type.sym(name)
         syms[(p["kind"], p["el"])] = s
         decl.append((name, s, p))
@@ -429,12 +451,12 @@ def run_fn(case, spec, x, u, d, rng):
     sym, compact, more_out = spec["sym"], int(spec["compact"]), bool(spec.get("more_out", False))
     params = spec.get("params") or []
     rec = {"sym": sym, "compact": compact, "more_out": more_out,
-           "params": [{"name": (p["kind"] if p["el"] == "*" else f"{p['kind']}_{p['el']}"), "kind": p["kind"], "el": p["el"]}
-                      for p in params],
+           "params": [],
            "ok": False, "err": "", "free": 0, "name_in": [], "size_in": [], "name_out": [], "size_out": [], "calls": []}
     try:
         eng = lib(cs_engine, sym)
-        syms, decl = make_syms(eng, params)
+        syms, decl = make_syms(eng, params, first_bare=bool(spec.get("first_bare")))
+        rec["params"] = [{"name": name, "kind": p["kind"], "el": p["el"]} for name, _, p in decl]
         b = lib(Built, case, syms)
         kw = par_kwargs(case, syms)
         lib(b.net.step, engine=eng, **opt_kwargs(case), **kw)
